@@ -127,7 +127,7 @@ def fixedParts (d : Dbl) (m : Nat) : List Nat × List Nat :=
   * the examples fix the side: a negative size puts the blanks in front, a positive one behind;
   * the text monadic "$" writes for a real number is its shortest positional decimal notation
     (what the manual's own literals 123.45 / 1.23 look like); numbers that need an exponent: undefined;
-  * "of the form n.m": the shortest notation of a > 0 has integer part n ≥ 1 and fractional digits
+  * "of the form n.m": a ≥ 1, its shortest notation has the integer part n and fractional digits
     that read as the number m ≥ 1 without a leading zero (5.3, 10.12; not 5.0, 5.03, 0.5, -5.3);
   * "m fractional digits … padded with zeros": defined where nothing has to be rounded away, i.e. the
     notation of b has at most m fractional digits, and at most 15 digits in all (what a double
@@ -156,6 +156,9 @@ def fmtText : Val → Option (List Nat)
   | .real b => pyFloatStr b
   | _ => none
 
+/-- |a| < 1 (Python: `int(a) == 0`) -/
+def truncZero (d : Dbl) : Bool := floorInt ⟨false, d.m, d.e⟩ = 0
+
 /-- a > 0 "of the form n.m": (n, m) -/
 def formNM (bits : UInt64) : Option (Nat × Nat) :=
   match decode bits with
@@ -166,22 +169,23 @@ def formNM (bits : UInt64) : Option (Nat × Nat) :=
     | some (D, k) =>
       let n := D / 10 ^ k
       let m := D % 10 ^ k
-      if k ≥ 1 ∧ n ≥ 1 ∧ m ≥ 10 ^ (k - 1) then some (n, m) else none
+      if k ≥ 1 ∧ !truncZero d ∧ m ≥ 10 ^ (k - 1) then some (n, m) else none
     | none => none
+
+/-- nothing of b is rounded away by writing it with m fractional digits -/
+def fixedOk (d : Dbl) (m : Nat) : Bool :=
+  decide (m ≤ 15) &&
+    (if d.m = 0 then true else
+      match shortPos d with
+      | some (D, k) => decide (k ≤ m) && decide ((natText (D / 10 ^ k)).length + m ≤ 15)
+      | none => false)
 
 /-- "n integer digits and m fractional digits" of b, where nothing is rounded away -/
 def refFixed (n m : Nat) (bits : UInt64) : Option (List Nat) :=
   match decode bits with
   | none => none
   | some d =>
-    let ok := if d.m = 0 then true else
-      match shortPos d with
-      | some (D, k) => decide (k ≤ m) && decide ((natText (D / 10 ^ k)).length + m ≤ 15)
-      | none => false
-    if ok && decide (m ≤ 15) then
-      let p := fixedParts d m
-      some (rjust p.1 n ++ [46] ++ p.2)
-    else none
+    if fixedOk d m then some (rjust (fixedParts d m).1 n ++ [46] ++ (fixedParts d m).2) else none
 
 def fmt2Atom : Val → Val → Option Val
   | .int n, b => (fmtText b).map fun t => .str (padTo n t)
@@ -227,9 +231,6 @@ def specOf (d : Dbl) : Option (Bool × Nat × Nat) :=
   match shortPos d with
   | some (D, k) => some (d.neg, D / 10 ^ k, D % 10 ^ k)
   | none => none
-
-/-- |a| < 1: `int(a) == 0` -/
-def truncZero (d : Dbl) : Bool := floorInt ⟨false, d.m, d.e⟩ = 0
 
 def f2Atom (a b : Val) : Res :=
   match a with
@@ -394,10 +395,7 @@ def implFloorRec : Val → Res
       | e => e
   | .int n => .ok (.int n)
   | .real bits => floorNumeric (.real bits)
-  | .chr _ => .err                                            -- could not convert string to float
-  | .str _ => .err
-  | .sym _ => .err
-  | _ => .unmodelled
+  | _ => .unmodelled                                          -- text: float("…") parses it or raises
 def implFloorL : List Val → Res
   | [] => .ok (.list [])
   | x :: xs => consRes (implFloorRec x) (implFloorL xs)
